@@ -36,6 +36,9 @@ def register(reg, S):
         return [
             # the header table is the inverse of '<Difficulty><Instrument>' (distinct sections have distinct pairs)
             ("header-names-its-pair", "forall(0, g_k, lambda j: implies(g_has[j], tagname(g_pi[j], g_pd[j]) == g_tag[j]))"),
+            # hence (tags are distinct) no two sections name the same pair: stated once so that the
+            # frame step of the store below does not have to redo the string argument
+            ("sections-name-distinct-pairs", "forall(0, g_k, lambda a: forall(a + 1, g_k, lambda b: implies(g_has[a] and g_has[b], not (g_pi[a] == g_pi[b] and g_pd[a] == g_pd[b]))))"),
             ("selected-sections-parsed-into-their-track",
              f"forall(0, {upto}, lambda j: implies(g_has[j] and {selected('(g_pi[j], g_pd[j])')}, "
              f"g_pi[j] in {tracks} and g_pd[j] in {tracks}[g_pi[j]] "
@@ -80,7 +83,10 @@ def register(reg, S):
         loops={0: LoopSpec(invariants=routed("instrument_tracks", "_it", "sync_track.bpm_events"))},
         ghosts=[Ghost("instrument_difficulty_pair = instrument_track_name_to_instrument_difficulty_pair[header_tag]",
                       "hint('current-section-pair', header_tag == g_tag[_it] and g_has[_it] and instrument_difficulty_pair[0] == g_pi[_it] and instrument_difficulty_pair[1] == g_pd[_it])\n"
-                      "rebind('instrument_difficulty_pair', (g_pi[_it], g_pd[_it]))")],
+                      "rebind('instrument_difficulty_pair', (g_pi[_it], g_pd[_it]))"),
+                # frame of the store: no earlier section names the pair being stored
+                Ghost("instrument_tracks.setdefault(instrument, dict())[difficulty] = track",
+                      "hint('no-earlier-section-names-this-pair', forall(0, _it, lambda j: implies(g_has[j], not (g_pi[j] == g_pi[_it] and g_pd[j] == g_pd[_it]))))")],
         locals={"instrument_tracks": S["TrackMap"]}, callee_modes=modes, call_site=False,
         callee_ensures=dict(slim, **{P: ["one-entry", "each-section"]}),
         props=["C06", "C13"]))
